@@ -44,7 +44,7 @@ META = {
                     "numpy/CPython arithmetic is the trusted base for value equality"],
     "probes": ["step_failed", "step_switched", "step_raised", "zero_trip_loop", "else_taken",
                "failed_then_completed", "op_after_raise", "t_end_stop", "cap_abandon", "second_instance",
-               "interpreter_after_codegen_on_same_objects"],
+               "interpreter_after_codegen_on_same_objects", "builder_extended_after_phase_snapshot"],
  },
  "C11": {
     "level": "fault_enumeration",
@@ -201,8 +201,28 @@ def build_all(ctx, sc, tape, permute=True):
     if permute:
         order = [order[i] for i in tape.perm(len(order), "phaseorder")]
     from dagrt.language import ExecutionPhase
-    for ph in order:
+    # the phase may be taken from the builder by as_execution_phase() -- a snapshot: calls that the same
+    # builder receives afterwards (here: a yield nobody wrote into this program) do not belong to it
+    snapshots = {}
+    with tape.span("snapshot"):
+        if tape.chance(0.2, "phase_snapshot_then_more_calls"):
+            from pymbolic import var as _var
+            for ph in sc.phases:
+                cb = ap.builders[ph.name]
+                snap = cb.as_execution_phase(ph.next_phase)
+                if tape.chance(0.5, "snapshot_used_first"):
+                    snap.depends_on
+                cb.yield_state(_var("<t>") + 12345, "leak", _var("<t>"), "leak")
+                snapshots[ph.name] = snap
+            ctx.count("probe:builder_extended_after_phase_snapshot")
+    b.phase_stmts = {}
+    for ph in sc.phases:
         stmts = list(ap.builders[ph.name].statements)
+        if ph.name in snapshots:
+            stmts = sorted(snapshots[ph.name].statements, key=lambda st: int(st.id.rsplit("_", 1)[1]))
+        b.phase_stmts[ph.name] = stmts
+    for ph in order:
+        stmts = list(b.phase_stmts[ph.name])
         if permute:
             stmts = [stmts[i] for i in tape.perm(len(stmts), "storage")]
         plain_phases[ph.name] = ExecutionPhase(ph.name, ph.next_phase, stmts)
@@ -226,7 +246,7 @@ def build_all(ctx, sc, tape, permute=True):
     b.chooser = chooser
     sim_phases = {}
     for ph in order:
-        stmts = [st.copy() for st in ap.builders[ph.name].statements]
+        stmts = [st.copy() for st in b.phase_stmts[ph.name]]
         for st in stmts:
             st.depends_on = OrdFS(st.depends_on, chooser, "deps:" + st.id)
         if permute:
@@ -711,7 +731,7 @@ def run_c11(ctx):
     # interpreter DAG with SeqChooser-owned orders
     sim_phases = {}
     for ph in sc.phases:
-        stmts = [st.copy() for st in b.ap.builders[ph.name].statements]
+        stmts = [st.copy() for st in b.phase_stmts[ph.name]]
         for st in stmts:
             st.depends_on = OrdFS(st.depends_on, chooser, "deps:" + st.id)
         sim_phases[ph.name] = SimPhase(ph.name, ph.next_phase, stmts, chooser)
@@ -825,7 +845,7 @@ def run_c11(ctx):
                     raise Violation("temporary-visible", "%s: per-step names still visible: %r" % (label, temps),
                                     site=kind)
                 # X3 / X4 against the written program's fault-free step from the same state
-                stmts = list(b.ap.builders[step_phase].statements)
+                stmts = list(b.phase_stmts[step_phase])
                 pos = {st.id: i for i, st in enumerate(stmts)}
                 deps_idx = [[pos[d] for d in st.depends_on] for st in stmts]
                 F = [i for i, st in enumerate(stmts) if fn_fired in str(st)]
